@@ -21,6 +21,9 @@ EXPLANATION += (
     ' ADDED: C19.3 decides the rate encoding by cases (rate < 1 -> -int(1/rate), else int(rate)) whatever its spelling. C19.5: the fresh header sizes the data section with the blockshape component of each axis (rule of C03.4), which matters exactly for the accepted non-square settings.'
 )
 EXPLANATION += (
+    ' C19.8 - byte counts derived from the (possibly fractional) rate that reach a slice bound, a bytearray size or a read length (directly, through locals, or through the arguments of a package call / pool submission) are wrapped in int(..) before the division, unless the function fixes the rate to an integer by assertion: otherwise a file written at 1/2 or 1/4 bit cannot be read by that path (TypeError).'
+)
+EXPLANATION += (
     ' ADDED (round 4): C19.7 - per-block emission order of every producer is (plane set, crossline block, sample block), the order the reader addresses (rule C01.6 reported for this property): an accepted non-default blockshape otherwise yields a valid-looking file with bricks at the wrong offsets. C19.1 compares bits * prod(blockshape) with 8*DISK_BLOCK_BYTES as polynomials (constants through the module), C19.2 reads layout predicates from path facts.'
 )
 EXPLANATION += (
@@ -61,6 +64,109 @@ def resolver(P, G):
             break
         core[cur.qualname] = cur
     return list(cands.values()), list(core.values())
+
+
+def _reaches_slice(P, G, f, x, depth=0):
+    """does the value of expression x become a slice bound / bytearray size / read length (directly, through a local, or
+    through an argument of a package call - also a pool submission)?"""
+    def in_slice(node, stop):
+        q = parent(node)
+        while q is not None and q is not stop and not isinstance(q, ast.stmt):
+            if isinstance(q, ast.Slice):
+                return True
+            if isinstance(q, ast.Call) and U(q.func) in ('bytearray', 'bytes'):
+                return True
+            q = parent(q)
+        return False
+    if in_slice(x, f.node):
+        return True
+    if depth > 2:
+        return False
+    # used in place as an argument of a package call
+    for e in G.callees(f):
+        if e.target is None:
+            continue
+        for p_, a in e.binding.items():
+            if any(z is x for z in ast.walk(a)):
+                for w in ast.walk(e.target.node):
+                    if isinstance(w, ast.Name) and w.id == p_ and isinstance(w.ctx, ast.Load) and in_slice(w, e.target.node):
+                        return True
+    st = enclosing_stmt(x)
+    names = []
+    if isinstance(st, ast.Assign) and len(st.targets) == 1 and isinstance(st.targets[0], ast.Name):
+        names.append(st.targets[0].id)
+    for nm in names:
+        for y in ast.walk(f.node):
+            if isinstance(y, ast.Name) and y.id == nm and isinstance(y.ctx, ast.Load):
+                if in_slice(y, f.node):
+                    return True
+                ys = enclosing_stmt(y)
+                if isinstance(ys, ast.Assign) and ys is not st and len(ys.targets) == 1 and isinstance(ys.targets[0], ast.Name):
+                    # flows into another local
+                    if _reaches_slice(P, G, f, ys.value, depth + 1):
+                        return True
+                # passed on to a package function
+                for e in G.callees(f):
+                    if e.target is None:
+                        continue
+                    for p_, a in e.binding.items():
+                        if any(z is y for z in ast.walk(a)):
+                            for w in ast.walk(e.target.node):
+                                if isinstance(w, ast.Name) and w.id == p_ and isinstance(w.ctx, ast.Load) and in_slice(w, e.target.node):
+                                    return True
+    return False
+
+
+def integral_byte_counts(ctx, rule):
+    """C19.8: the bit rate may be fractional (1/2, 1/4 ..: accepted settings).  A byte count or offset computed from it is
+    used as a slice bound, a buffer size or a read length, which must be an int: the product with the rate is wrapped in
+    int(..) before it is divided (the idiom of the reader: int(voxels * rate) // 8).  A product with self.rate that reaches
+    `//` un-wrapped is a float for fractional rates, and slicing with it raises TypeError - the file was written, but that
+    read path cannot read it."""
+    P = ctx.P
+    ctx.rule(rule, 'byte counts derived from the (possibly fractional) rate are made integers before they are used')
+    n = 0
+    for f in P.functions.values():
+        if f.module.name not in ('loader', 'read', 'cropping', 'conversion'):
+            continue
+        for x in ast.walk(f.node):
+            if not (isinstance(x, ast.BinOp) and isinstance(x.op, ast.FloorDiv)):
+                continue
+            if not any(isinstance(y, ast.Attribute) and y.attr == 'rate' for y in ast.walk(x.left)):
+                continue
+            n += 1
+            # is the rate inside an int(..) within the dividend?
+            def wrapped(e):
+                if isinstance(e, ast.Call) and U(e.func) == 'int':
+                    return True
+                if isinstance(e, ast.Attribute) and e.attr == 'rate':
+                    return False
+                return all(wrapped(c) for c in ast.iter_child_nodes(e) if any(
+                    isinstance(y, ast.Attribute) and y.attr == 'rate' for y in ast.walk(c)))
+            # the quotient (or anything around it) wrapped by int(..) is fine too
+            outer = False
+            par = parent(x)
+            while par is not None and not isinstance(par, ast.stmt):
+                if isinstance(par, ast.Call) and U(par.func) == 'int':
+                    outer = True
+                par = parent(par)
+            # the function fixes the rate to an integer (assert self.rate == 2)
+            fixed = any(isinstance(a, ast.Assert) and isinstance(a.test, ast.Compare) and len(a.test.ops) == 1 and
+                        isinstance(a.test.ops[0], ast.Eq) and U(a.test.left).endswith('rate') and
+                        isinstance(a.test.comparators[0], ast.Constant) and type(a.test.comparators[0].value) is int
+                        for a in ast.walk(f.node))
+            if not _reaches_slice(P, ctx.G, f, x):
+                ctx.ok(rule, f, x, 'not used as a slice bound, buffer size or read length', nontrivial=False)
+                continue
+            if wrapped(x.left) or outer or fixed:
+                ctx.ok(rule, f, x, 'product with the rate is an int before the division', nontrivial=False)
+            else:
+                ctx.fail(rule, f, enclosing_stmt(x), '`%s` divides a product with the rate that is not wrapped in int(..): for a '
+                         'fractional rate (an accepted setting) the result is a float, and the slice / length it is used for '
+                         'raises TypeError' % U(x)[:70], line=x.lineno)
+    if n < 4:
+        raise AnalysisError('byte counts derived from the rate: found %d sites, floor 4' % n)
+    ctx.floor(rule, 1)
 
 
 def _prod_poly(P, f, txt):
@@ -123,6 +229,7 @@ def run(ctx):
     _relabel(ctx, ('C01.6',), 'C19.7')
     ctx.floors = [(('C19.7' if r == 'C01.6' else r), n_, w) for (r, n_, w) in getattr(ctx, 'floors', [])]
     ctx.rule_docs.pop('C01.6', None)
+    integral_byte_counts(ctx, 'C19.8')
     entry, cores = resolver(P, G)
     for f in cores:
         fm = FactMap(f.node)
